@@ -706,6 +706,19 @@ def frames(ctx):
             res.fail(ctx.finding('FRAME', fn, fn.node,
                                  'reference coordinate system not applied '
                                  'outermost', construct=f'{fn.name} ref order'))
+    # the geometry hands the frame change to its coordinate system
+    from ..match import find as _find
+    for nm in ('localize', 'globalize'):
+        bg = P.func('BaseGeometry.' + nm)
+        res.saw(bg)
+        if _find(bg, f'self.cs.{nm}(rays)'):
+            res.ok(f'BaseGeometry.{nm} -> self.cs.{nm}(rays)')
+        else:
+            res.fail(ctx.finding('FRAME', bg, bg.node,
+                                 f'BaseGeometry.{nm} does not apply its '
+                                 f'coordinate system: the surface is traced '
+                                 f'as if centred and untilted',
+                                 construct=f'BaseGeometry.{nm} delegation'))
     # translate
     tr = P.func('BaseRays.translate')
     res.saw(tr)
@@ -1118,10 +1131,27 @@ def records(ctx):
                         f'the {attr} record is filled from rays.{src[0].attr} '
                         f'instead of rays.{RECORD_MAP[attr]}',
                         construct=f'record {attr} source'))
-    if n < 9:
-        res.fail(ctx.finding('RECORDS', f, f.node,
-                             f'only {n} of the record attributes are stored',
-                             construct='record coverage'))
+    # every arm of _record stores every quantity of its ray type
+    for arm, attrs in (('RealRays', ('x', 'y', 'z', 'L', 'M', 'N',
+                                     'intensity', 'opd')),
+                       ('ParaxialRays', ('y', 'u'))):
+        arms = [st for st in ast.walk(f.node) if isinstance(st, ast.If) and
+                f'isinstance(rays, {arm})' in unparse(st.test)]
+        got_ = set()
+        for st in arms[:1]:
+            for b in st.body:
+                if isinstance(b, ast.Assign) and isinstance(
+                        b.targets[0], ast.Attribute):
+                    got_.add(b.targets[0].attr)
+        miss = [a_ for a_ in attrs if a_ not in got_]
+        if not arms or miss:
+            res.fail(ctx.finding('RECORDS', f, f.node,
+                                 f'_record does not store {miss or attrs} for '
+                                 f'{arm}: that record keeps the value of an '
+                                 f'earlier trace (or stays empty)',
+                                 construct=f'record coverage {arm}'))
+        else:
+            res.ok(f'_record stores {", ".join(attrs)} for {arm}')
     from ..match import find
     g = P.classes['SurfaceGroup']
     for attr in ('x', 'y', 'z', 'L', 'M', 'N', 'opd', 'u', 'intensity'):
